@@ -18,7 +18,12 @@ RULE = ('region sets: 1..6 regions, sizes 0..70, addresses near 0xFFFF*k and 2^1
         'runs, overlapping pairs, random insertion order; lines: (address, type, data) incl. out-of-range fields and '
         'mutated texts; non-trivial = distinct region set with at least one non-empty region whose insertion sequence '
         'was accepted, plus distinct accepted lines')
-EXPLANATION = ('Unbounded Coq theorems about Model.Hexfile (lines, check, save, load) against Spec.IhexSpec; hand model tied '
+EXPLANATION = ('Unbounded Coq theorems about Model.Hexfile against Spec.IhexSpec: line round trip and checksum/length; check is sound '
+               '(same bytes, canonical result) and complete (any pairwise non-overlapping set of non-empty regions is accepted in any '
+               'insertion order, an overlap is refused with HexFileException); save denotes the region bytes and the start address; '
+               'load (save hf) = hf for every well-formed HexFile (canonical regions below 4 GiB, any 32-bit start address); load of ANY text '
+               'the reference I32HEX reader accepts (non-empty, non-overlapping data records) yields exactly the denoted bytes and start '
+               'address; saved lines are \':\' + lower-case hex, at most 71 characters; hand model tied '
                'to the implementation by correspondence on every run; refuted theorems are about check/save before fixes '
                'C18-1/C18-2, witnesses replayed on the implementation on every run')
 TRUSTED = ['hand model coq/Model/Hexfile.v == ppci/format/hexfile.py (checked by correspondence only)',
@@ -372,7 +377,8 @@ def run(ctx):
     self_test_reference()
     hx = load_impl()
     t0 = time.time()
-    ctx.build(['Proofs/C18_hexfile.vo', 'Proofs/C18_refuted.vo', 'Proofs/C18_bounded.vo'])
+    ctx.build(['Proofs/C18_hexfile.vo', 'Proofs/C18_refuted.vo', 'Proofs/C18_bounded.vo', 'Proofs/C18_loadsave.vo',
+               'Proofs/C18_complete.vo', 'Proofs/C18_text.vo', 'Proofs/C18_reader.vo'])
     tm['build'] = round(time.time() - t0, 1)
     t0 = time.time()
     ctx.check_props('Props/C18.v')
@@ -513,13 +519,19 @@ def run(ctx):
 
 
 MANIFEST = {
-    'text': 'proof: HexLine.to_line/from_line round trip and every emitted line has correct length and two\'s-complement '
-            'checksum; check() returns the canonical (sorted, merged) regions with the same bytes at the same addresses; the '
-            'I32HEX denotation of save(hf) is the bytes of hf.regions incl. 64 KiB crossings, plus the start address; '
-            'the writer/merger before fixes C18-1/C18-2 is refuted (bridging region loses data; start address never saved).',
+    'text': 'proof (all unbounded): HexLine.to_line/from_line round trip and every emitted line has correct length byte and '
+            'two\'s-complement checksum; check() returns canonical (sorted, merged) regions with the same bytes at the same addresses, '
+            'accepts every pairwise non-overlapping set of non-empty regions in any insertion order (order does not change the image) '
+            'and refuses any overlap with HexFileException; the I32HEX denotation of save(hf) is the bytes of hf.regions incl. 64 KiB '
+            'crossings, plus the start address; load(save(hf)) = hf (same region list, same start address) for every HexFile with '
+            'canonical non-empty regions below 4 GiB and any 32-bit start address; load of any file the reference I32HEX reader gives a '
+            'denotation (non-empty, non-overlapping data records, either hex case) returns canonical regions holding exactly the denoted '
+            'bytes and the denoted start address; saved lines are \':\' + [0-9a-f]*, at most 71 characters. The merger/writer before fixes C18-1/C18-2 is '
+            'refuted (bridging region loses data; start address never saved).',
     'note': 'hand model of ppci/format/hexfile.py tied to the implementation by correspondence on generated lines, insertion '
             'sequences and files on every run; trusted: Coq kernel, model correspondence, the reading of the Intel HEX format '
-            '(cross-checked by an independent Python reader on the real output). Holds only with fixes C18-1 and C18-2 applied. '
-            'See Props/C18.v for which statements are bounded/partial.',
+            '(cross-checked by an independent Python reader on the real output), struct/binascii/str.strip as modelled. Not covered '
+            'by theorems: lines with surrounding white space / junk lines that load skips, bytes.fromhex with embedded white space '
+            '(correspondence only). c18_load_save_bounded is a computational instance kept as a cross-check.',
     'technique': 'Coq proof over hand model + differential correspondence + independent reader',
 }
